@@ -72,6 +72,12 @@ def oracle(res, cux, ComplexS, s, rng):
             objrots.append((list(cur_seq), list(cur_sst)))
     if (cur_seq, cur_sst) != (seq, sst):
         res.violation('rotate_complex_once:period', {'op': ['rotN', ' '.join(seq), s]}, ' '.join(cur_seq) + ' / ' + ''.join(cur_sst), 'original after n rotations')
+    # results belong to the caller (wrecking them must not change later calls)
+    if n > 1:
+        d = {'op': ['rot1', ' '.join(seq), s]}
+        cu.fresh_results(res, 'rotate_complex_once', lambda: cux.rotate_complex_once(list(seq), list(sst)), d)
+        cu.fresh_results(res, 'rotate_complex_db', lambda: cux.rotate_complex_db(list(seq), list(sst)), d)
+        cu.fresh_results(res, 'rotate_complex_pt', lambda: cux.rotate_complex_pt(cux.make_strand_table(list(seq)), cux.make_pair_table(s)), d)
     # the two utility generator families (no explicit turn count)
     stab = cux.make_strand_table(seq)
     ptab = cux.make_pair_table(s)
@@ -110,6 +116,18 @@ def oracle(res, cux, ComplexS, s, rng):
                     res.violation('rotate_pairtable_loc:mapping', {'op': ['ComplexS.rotate_pt', ' '.join(seq), s]},
                                   'rotation %d locus %r -> %r: %r' % (k, (si, di), l2, got), repr(want))
                     break
+    # the generators follow the object: after every `turns` assignment both start with the current representation
+    if n > 1:
+        for v in ([1, n - 1, 0] if n > 2 else [1, 0]):
+            c.turns = v
+            cur = ([str(x) for x in c.sequence], list(c.structure))
+            want = [(list(a), list(b)) for a, b in ref.rotations(cur[0], cur[1])]
+            g1 = [([str(x) for x in a], list(b)) for a, b in c.rotate()]
+            g2 = [([str(x) for x in cux.strand_table_to_sequence(a)], list(cux.pair_table_to_dot_bracket(b))) for a, b in c.rotate_pt()]
+            if g1 != want or g2 != want:
+                res.violation('ComplexS.rotate:after-turns', {'op': ['ComplexS.rotate', ' '.join(seq), s], 'turns': v},
+                              'rotate(): %s, rotate_pt(): %s' % (g1 == want, g2 == want), 'both generators start with the current representation')
+                break
     del c, r1, r2
     clear_singletons(ComplexS)
 
@@ -134,7 +152,11 @@ def run(res, proof):
         ops.append(('rot1', ' '.join(gen.label(s, rng, ['a', 'b'])), s))
         ops.append(('rotpt', s))
         if len(s) <= 60:
-            oracle(res, cux, ComplexS, s, rng)
+            try:
+                oracle(res, cux, ComplexS, s, rng)
+            except Exception as e:
+                res.violation('rotation-api-raises:' + type(e).__name__, {'op': ['rot1', ' '.join(gen.label(s, unique=True)), s]},
+                              type(e).__name__ + ' while rotating / constructing the well-formed complex', 'rotations of a well-formed complex never raise')
     # rotationally symmetric / periodic complexes with their own (repeated) labels: the object generators must still
     # enumerate exactly n rotations and agree with the utility generators
     from dsdobjects import clear_singletons
@@ -151,10 +173,16 @@ def run(res, proof):
                 dd[b_ + '*'] = ~dd[b_]
         want = [(list(a), list(b)) for a, b in ref.rotations(names, s)]
         clear_singletons(ComplexS)
-        c = ComplexS([dd[x] if x != '+' else '+' for x in names], list(s), name='SYM')
-        r1 = [([str(x) for x in a], list(b)) for a, b in c.rotate()]
-        r2 = [([str(x) for x in cux.strand_table_to_sequence(a)], cux.pair_table_to_dot_bracket(b)) for a, b in c.rotate_pt()]
-        dbr = [([str(x) for x in a], list(b)) for a, b in cux.rotate_complex_db(list(names), list(s))]
+        try:
+            c = ComplexS([dd[x] if x != '+' else '+' for x in names], list(s), name='SYM')
+            r1 = [([str(x) for x in a], list(b)) for a, b in c.rotate()]
+            r2 = [([str(x) for x in cux.strand_table_to_sequence(a)], cux.pair_table_to_dot_bracket(b)) for a, b in c.rotate_pt()]
+            dbr = [([str(x) for x in a], list(b)) for a, b in cux.rotate_complex_db(list(names), list(s))]
+        except Exception as e:
+            res.violation('rotation-api-raises:' + type(e).__name__, {'op': ['ComplexS.rotate', ' '.join(names), s]},
+                          type(e).__name__ + ' while rotating / constructing the well-formed complex', 'rotations of a well-formed complex never raise')
+            e = None
+            continue
         nn = len(want)
         if r1 != want or r2 != want or len(dbr) != nn or any(dbr[k] != want[(nn - k) % nn] for k in range(nn)):
             res.violation('rotation-enumeration:symmetric-complex', {'op': ['ComplexS.rotate', ' '.join(names), s]},
